@@ -309,9 +309,21 @@ where
     if burst {
         let _ = gate.send(true);
     }
-    for op in &ops {
+    for (opi, op) in ops.iter().enumerate() {
         if burst && op == "finish" {
             let _ = gate.send(false);
+        }
+        // Every seventh unbatched case: an item beyond the frame limit is offered in between.  If it is
+        // refused, the publisher must be as good as before (what it accepts afterwards arrives); if the
+        // configured compression makes it fit, it is an item like any other.
+        if opi == 1 && run % 7 == 3 && size == 0 && !burst && publisher.is_some() {
+            let i = sent.len() as u64 + 1;
+            let item = Item::make(i, 1_100_000, rng);
+            let r = publisher.as_mut().unwrap().send(item.clone()).await;
+            if r.is_ok() {
+                sent.push(item);
+            }
+            log.emit("pub_oversize", json!({"i": i, "res": if r.is_ok() { "ok".to_string() } else { format!("err: {}", r.unwrap_err()) }}));
         }
         if elapses {
             tokio::time::sleep(Duration::from_millis(4)).await;
